@@ -127,13 +127,18 @@ def gen_case(rng, supervised):
   RE = chol_or_none(E)
   if RE is not None:
     ev['cholE'], ev['has_cholE'] = dym(RE), True
-  with warnings.catch_warnings():
-    warnings.simplefilter('ignore')
+  ev['solver_gave_up'] = False
+  with warnings.catch_warnings(record=True) as wrec:
+    warnings.simplefilter('always')
     try:
       if supervised:
         est = gen.SDML_Supervised(balance_param=balance, sparsity_param=alpha, prior=prior_arg, n_constraints=n_c, random_state=seed).fit(X.copy(), y.copy())
       else:
         est, ev['how'] = gen.fit_tuples_via(rng, gen.SDML(balance_param=balance, sparsity_param=alpha, prior=prior_arg, random_state=seed), X, idx, lab)
+      # scikit-learn's graphical lasso REPORTS (ConvergenceWarning, shown to the user) when it stops at its iteration limit
+      # without reaching its tolerance: the "solver tolerance" of the statement is then not claimed by the solver itself
+      from sklearn.exceptions import ConvergenceWarning
+      ev['solver_gave_up'] = any(issubclass(x.category, ConvergenceWarning) for x in wrec)
       L = np.asarray(est.components_)
       M = L.T.dot(L)
       ev['L'] = dym(L)
